@@ -404,6 +404,14 @@ def step (c : Cl) (line : String) : Cl × String :=
     let c := settle c
     (c, if c.lag then "lag" else "ok")
   | ["pause"] => (c, "ok")
+  | ["wait-ms", _] => (c, "ok")
+  -- a handoff to a node whose stream handler on the primary is blocked (it waits for the locks of
+  -- an application transaction before it can send the snapshot): the request is accepted, the
+  -- lease id cannot be delivered within the processing time-out, the primary carries on
+  | ["handoff-stalled", p, k] =>
+    (match p.toNat? >>= fun p => c.nodes[p]?, k.toNat? >>= fun k => c.nodes[k]? with
+     | some pn, some kn => if !pn.up || !kn.up then (c, "bad-op") else (c, if c.holder == p.toNat? then "ok" else "err")
+     | _, _ => (c, "bad-op"))
   | ["roles"] =>
     let cls (x : String) : String := if x == "" then "none" else x
     let per := (List.range c.nodes.size).map fun i =>
